@@ -80,6 +80,7 @@ def _wrun(arg):
         "skip": collections.Counter(),
         "st": collections.Counter(),
         "viol": [],
+        "vcount": collections.Counter(),
         "samples": [],
         "err": None,
     }
@@ -103,15 +104,19 @@ def _wrun(arg):
             if len(out["outcomes"]) < 5000 or o in out["outcomes"]:
                 out["outcomes"][o if isinstance(o, str) else repr(o)] += 1
         for k, v in (r.get("st") or {}).items():
-            out["st"][k] += v
+            if k.startswith("max_"):
+                out["st"][k] = max(out["st"][k], v)
+            else:
+                out["st"][k] += v
         for v in r.get("v") or ():
-            if len(out["viol"]) < MAX_VIOL_KEEP:
+            key = json.dumps(_jsonable(v.get("sig", {})), sort_keys=True)
+            out["vcount"][key] += 1
+            if out["vcount"][key] <= 2:
                 v = dict(v)
                 v.setdefault("case", case)
                 v["_order"] = (idx, pos)
+                v["_key"] = key
                 out["viol"].append(_jsonable(v))
-            else:
-                out["st"]["violations_not_kept"] += 1
     return out
 
 
@@ -161,13 +166,17 @@ class Agg:
         self.skip = collections.Counter()
         self.st = collections.Counter()
         self.viol = []
+        self.vcount = collections.Counter()
+        self.vkept = collections.Counter()
         self.samples = []
         self.extra = {}  # extra coverage keys
         self.caps_hit = []
 
     def add_violation(self, sig, msg, case=None, expected=None, observed=None):
+        key = json.dumps(_jsonable(sig), sort_keys=True)
+        self.vcount[key] += 1
         self.viol.append(
-            _jsonable({"sig": sig, "msg": msg, "case": case, "expected": expected, "observed": observed, "_order": (1 << 60, len(self.viol))})
+            _jsonable({"sig": sig, "msg": msg, "case": case, "expected": expected, "observed": observed, "_order": (1 << 60, len(self.viol)), "_key": key})
         )
 
 
@@ -205,11 +214,17 @@ def run_module(modname, tier, seed, replay=None):
             agg.nth.update(out["nth"])
             agg.outcomes.update(out["outcomes"])
             agg.skip.update(out["skip"])
-            agg.st.update(out["st"])
-            if len(agg.viol) < 5000:
-                agg.viol.extend(out["viol"])
-            else:
-                agg.st["violations_not_kept"] += len(out["viol"])
+            for k, v in out["st"].items():
+                if k.startswith("max_"):
+                    agg.st[k] = max(agg.st[k], v)
+                else:
+                    agg.st[k] += v
+            agg.vcount.update(out["vcount"])
+            for v in out["viol"]:
+                k = v.get("_key")
+                if agg.vkept[k] < 3 or len(agg.viol) < 200:
+                    agg.vkept[k] += 1
+                    agg.viol.append(v)
             if len(agg.samples) < 6 and out["samples"]:
                 agg.samples.extend(out["samples"][:1])
     finally:
@@ -246,7 +261,8 @@ def _report(mod, plan, agg, tier, seed, want_hash, wall):
             known_hits.setdefault(hit, []).append(v)
     for i, vs in known_hits.items():
         e = known[i]
-        print("KNOWN-FINDING: property={} {} [{} case(s) this run, e.g. {}]".format(pid, e.get("what", ""), len(vs), json.dumps(vs[0].get("case"), ensure_ascii=False)[:160]))
+        cnt = sum(agg.vcount.get(k, 0) for k in {v.get("_key") for v in vs}) or len(vs)
+        print("KNOWN-FINDING: property={} {} [{} case(s) this run, e.g. {}]".format(pid, e.get("what", ""), cnt, json.dumps(vs[0].get("case"), ensure_ascii=False)[:160]))
     # replay files for fresh violations: group by signature, keep the first (simplest) of each group
     rdir = os.path.join(OUT, "replays", pid)
     if os.path.isdir(rdir):
@@ -255,7 +271,7 @@ def _report(mod, plan, agg, tier, seed, want_hash, wall):
                 os.unlink(os.path.join(rdir, f))
     groups = collections.OrderedDict()
     for v in fresh:
-        key = json.dumps(v.get("sig", {}), sort_keys=True)
+        key = v.get("_key") or json.dumps(v.get("sig", {}), sort_keys=True)
         groups.setdefault(key, []).append(v)
     n_lines = 0
     for gi, (key, vs) in enumerate(groups.items()):
@@ -264,10 +280,12 @@ def _report(mod, plan, agg, tier, seed, want_hash, wall):
         os.makedirs(rdir, exist_ok=True)
         v = dict(vs[0])
         v.pop("_order", None)
+        v.pop("_key", None)
+        cnt = agg.vcount.get(key, len(vs))
         path = os.path.join(rdir, "{:03d}.json".format(gi))
         with open(path, "w", encoding="utf-8") as fd:
-            json.dump({"property": pid, "tier": tier, "module": mod.__name__, "count_same_signature": len(vs), **v}, fd, indent=1, ensure_ascii=False)
-        print("VIOLATION property={} replay={}  # {} x{}".format(pid, path, (v.get("msg") or "")[:300], len(vs)))
+            json.dump({"property": pid, "tier": tier, "module": mod.__name__, "count_same_signature": cnt, **v}, fd, indent=1, ensure_ascii=False)
+        print("VIOLATION property={} replay={}  # {} x{}".format(pid, path, (v.get("msg") or "")[:300], cnt))
         n_lines += 1
     if len(groups) > 40:
         print("... {} further violation signatures not written".format(len(groups) - 40))
@@ -296,14 +314,14 @@ def _report(mod, plan, agg, tier, seed, want_hash, wall):
         "coverage": cov,
         "assumptions": list(getattr(mod, "ASSUMPTIONS", [])),
         "wall_s": round(wall, 2),
-        "violations": len(fresh),
+        "violations": sum(agg.vcount.get(k, len(vs)) for k, vs in groups.items()),
     }
     os.makedirs(os.path.join(OUT, "evidence"), exist_ok=True)
     with open(os.path.join(OUT, "evidence", pid + ".json"), "w", encoding="utf-8") as fd:
         json.dump(_jsonable(ev), fd, indent=1, ensure_ascii=False)
     print(
         "{} tier={} seed={} evaluations={} nontrivial={} outcomes={} skipped={} violations={} known={} wall={:.1f}s".format(
-            pid, tier, seed, agg.n, distinct_nt, len(agg.outcomes), sum(agg.skip.values()), len(fresh), sum(len(v) for v in known_hits.values()), wall
+            pid, tier, seed, agg.n, distinct_nt, len(agg.outcomes), sum(agg.skip.values()), ev["violations"], sum(len(v) for v in known_hits.values()), wall
         )
     )
     return 1 if fresh else 0
